@@ -196,6 +196,11 @@ type replayFile struct {
 	Tape     []vm.TapeEntry `json:"tape"`
 	Path     string         `json:"path"`
 	Open     []string       `json:"open_known"`
+	Preempt  int            `json:"preempt,omitempty"`
+	Budget2  int            `json:"preempt_budget,omitempty"`
+	Deadlock bool           `json:"deadlock_is_violation,omitempty"`
+	MapOrder bool           `json:"symbolic_map_order,omitempty"`
+	NoNative bool           `json:"vm_only,omitempty"`
 }
 
 func writeReplay(prop, pd string, run HarnessRun, v *vm.Violation, n int) string {
@@ -209,7 +214,8 @@ func writeReplay(prop, pd string, run HarnessRun, v *vm.Violation, n int) string
 		}
 	}
 	sort.Strings(open)
-	rf := replayFile{Property: prop, PkgDir: pd, Entry: run.Entry, AssertID: v.AssertID, Msg: v.Msg, Params: run.Params, Tape: v.Tape, Path: v.Path, Open: open}
+	rf := replayFile{Property: prop, PkgDir: pd, Entry: run.Entry, AssertID: v.AssertID, Msg: v.Msg, Params: run.Params, Tape: v.Tape, Path: v.Path, Open: open,
+		Preempt: run.Preempt, Budget2: run.Budget2, Deadlock: run.Deadlock, MapOrder: run.MapOrder, NoNative: run.NoNative}
 	b, _ := json.MarshalIndent(rf, "", " ")
 	os.WriteFile(p, b, 0o644)
 	return p
@@ -221,6 +227,30 @@ func cmdReplay(args []string) int {
 	if fs.NArg() < 1 {
 		usage()
 	}
+	// harnesses that use VM-only vocabulary (threads, virtual time, sync
+	// observer, logical actors) are replayed concretely in the VM
+	if b, err := os.ReadFile(fs.Arg(0)); err == nil {
+		var rf replayFile
+		if json.Unmarshal(b, &rf) == nil {
+			if run, spec := findRun(rf); run != nil && run.NoNative {
+				env, err := loadEnv([]string{spec.PkgDir})
+				if err != nil {
+					fmt.Println("load:", err)
+					return 2
+				}
+				run.PkgPath = pkgPathOf(spec.PkgDir)
+				run.Params = rf.Params
+				run.Preempt, run.Budget2, run.Deadlock, run.MapOrder = rf.Preempt, rf.Budget2, rf.Deadlock, rf.MapOrder
+				v := &vm.Violation{AssertID: rf.AssertID, Tape: rf.Tape}
+				if vmReplay(env, *run, v) {
+					fmt.Printf("REPRODUCED (concrete re-execution of the real code in the VM; assertion %s)\n", rf.AssertID)
+					return 1
+				}
+				fmt.Println("NOT-REPRODUCED (VM)")
+				return 0
+			}
+		}
+	}
 	ok, out := nativeReplay(fs.Arg(0))
 	fmt.Print(out)
 	if ok {
@@ -229,4 +259,31 @@ func cmdReplay(args []string) int {
 	}
 	fmt.Println("NOT-REPRODUCED")
 	return 0
+}
+
+// findRun locates the harness run a replay file belongs to.
+func findRun(rf replayFile) (*HarnessRun, *CheckSpec) {
+	spec := checks[rf.Property]
+	if spec == nil {
+		for _, s := range checks {
+			for _, list := range [][]HarnessRun{s.Quick, s.Thorough} {
+				for i := range list {
+					if list[i].Entry == rf.Entry && s.PkgDir == rf.PkgDir {
+						r := list[i]
+						return &r, s
+					}
+				}
+			}
+		}
+		return nil, nil
+	}
+	for _, list := range [][]HarnessRun{spec.Quick, spec.Thorough} {
+		for i := range list {
+			if list[i].Entry == rf.Entry {
+				r := list[i]
+				return &r, spec
+			}
+		}
+	}
+	return nil, nil
 }
